@@ -1,6 +1,8 @@
 mod c03;
 mod c11;
 mod c13;
+mod c16;
+mod c18;
 mod report;
 mod synth;
 mod corpus;
@@ -23,6 +25,8 @@ fn props() -> Vec<Box<dyn Property>> {
         Box::new(c11::ReportProp { id: "C11" }),
         Box::new(c11::ReportProp { id: "C12" }),
         Box::new(c13::C13),
+        Box::new(c16::C16),
+        Box::new(c18::C18),
     ]
 }
 
